@@ -181,6 +181,17 @@ func runUpdate(o *Out, spec *Spec, r *Ref, m *MethodSpec) {
 		if ok, p := Equal(src, srcSnap); !ok {
 			addViol(Violation{Kind: "source_modified", Method: m.Name, ValueI: i, Detail: "at " + p, Source: srcStr})
 		}
+		// nothing but the pointee of the update ARG may change: the context arguments must be untouched
+		k := 0
+		for a := 0; a < ft.NumIn(); a++ {
+			if a == srcIdx || a == tgtIdx {
+				continue
+			}
+			if ok, p := Equal(args[a], ctxSnaps[k]); !ok {
+				addViol(Violation{Kind: "source_modified", Method: m.Name, ValueI: i, Detail: fmt.Sprintf("context argument %d modified at %s", a, p), Source: srcStr})
+			}
+			k++
+		}
 		ev.Judged++
 		mismatch := func(kind, fname, why string, want reflect.Value) {
 			w := ""
